@@ -314,8 +314,13 @@ def run(P, R, tier):
     c15.registration(P, Remap(R, {'C15.MPT.2': 'C17.MPT.7'}))
     # an added or removed entry marks its section modified whatever its neighbours in sort order do
     c15.merge_details(P, R, 'C17.MPT.8')
+    # a section read from the file counts as present, so that dropping it later reverts its children
+    from . import c16 as _c16
+    _c16.duplicates(P, Remap(R, {'C16.MPT.1': 'C17.MPT.10'}))
     # a slot emptied by a reload must not hide the services configured behind it
     from . import c06
     xq, b = c06.builder(P)
     c06.fanout_complete(P, R, b, 'C17.MPT.9')
+    # the parser and the merge keep nothing from one load (or one entry, or one nested call) to the next
+    rules.no_static_locals(P, R, 'C17.WMC.9', P.unit_fns(P.need_fn('conf_read').unit), 'configuration code')
     return EXPLANATION, ASSUMPTIONS
